@@ -227,13 +227,17 @@ def check_wrapper(ex, finished, row, extra_obs, kwnames=None):
                             raise Unsupported('spec int %s not a parameter of'
                                               ' %s' % (k, rec.name))
                         eqs.append(rec.args['ints'][k] == v)
-                    for k, (mname, off) in c.ptrs.items():
+                    for k, pspec in c.ptrs.items():
+                        # (matrix argument, element offset[, element size
+                        # in bytes -- default: that of the typecode])
+                        mname, off = pspec[0], pspec[1]
                         p = rec.args['ptrs'][k]
                         m = getattr(a, mname)
                         if p.region is not m.obj.buffer_region():
                             eqs.append(z3.BoolVal(False))
                         else:
-                            esz = 8 if tc == 'd' else 16
+                            esz = pspec[2] if len(pspec) > 2 else (
+                                8 if tc == 'd' else 16)
                             eqs.append(p.off == off * esz)
                     for k, v in c.scalars.items():
                         got = rec.args['scalars'].get(k)
